@@ -1,4 +1,84 @@
-import DSModel.Wire.Theta
+/-
+C09 (compact theta sketch images) — serialization round trip.
+
+ONLY property theorems and their non-vacuity examples (helper lemmas: Lemmas/WireTheta*.lean, Lemmas/BitPack*.lean).
+Model: DSModel/Wire/Theta.lean — specification writer `encode` / `encodeV4` and reader `decode` of the documented
+layouts, parametric in the wire constants `c` (instantiated from the CURRENT headers by the driver; pinned to the
+documented values by C10).  Tied to theta_sketch_impl.hpp / compact_theta_sketch_parser_impl.hpp by `./check c09_theta`
+(every image the real sketches write is decoded by `decode`, re-encoded, compared).
+
+All statements are for every set of constants satisfying the decidable side condition `c.ok`, every well-formed image
+state `s` (any number of entries, any theta, any seed hash), every expected seed hash and every byte tail.
+-/
+import DSProofs.Lemmas.WireThetaLegacy
+import DSProofs.Lemmas.WireThetaBounded
+import DSProofs.Gen.BitPack
 namespace DS.Wire.Theta
-theorem placeholder : True := trivial
+open DS.Wire
+
+/-- uncompressed (serial version 3): the reader inverts the writer and consumes exactly the image. -/
+theorem decode_encode (c : Consts) (hc : c.ok = true) (s : Image) (hwf : WF s) (exp : Nat)
+    (hseed : s.isEmpty = true ∨ s.seedHash = exp) (tail : Bytes) :
+    decode c exp (encode c s ++ tail) = some (s, tail) :=
+  decode_encode_v3 (COk.of_ok hc) s hwf exp hseed tail
+
+example : WF ⟨false, false, 37836, 4611686018427387904, [2206043092153046979, 405753591161026837, 3]⟩ := by decide
+example : WF ⟨true, true, 0, maxTheta, []⟩ := by decide
+
+/-- the image has exactly the advertised size `8·preamble_longs + 8·entries` (`get_serialized_size_bytes`). -/
+theorem size_eq (c : Consts) (s : Image) : (encode c s).length = serializedSize s := length_encode c s
+
+/-- `get_max_serialized_size_bytes(lg_k)` bounds every image with at most `capacity(lg_k)` entries. -/
+theorem size_le_max (s : Image) (rbdNum rbdDen lgK : Nat) (hn : s.entries.length ≤ 2 ^ (lgK + 1) * rbdNum / rbdDen) :
+    serializedSize s ≤ maxSerializedSize rbdNum rbdDen lgK := by
+  unfold serializedSize maxSerializedSize
+  have := preLongs_le3 s
+  omega
+
+/-- re-serialization of what was read gives the same bytes (well-formed images are in bijection with their encodings). -/
+theorem encode_decode (c : Consts) (hc : c.ok = true) (s : Image) (hwf : WF s) (exp : Nat)
+    (hseed : s.isEmpty = true ∨ s.seedHash = exp) (tail : Bytes) :
+    (decode c exp (encode c s ++ tail)).map (fun p => encode c p.1) = some (encode c s) := by
+  rw [decode_encode c hc s hwf exp hseed tail]; rfl
+
+/-- **compressed format** (serial version 4): bit packing (`unpackFields_packFields`, whose block-of-8 instances are the
+translated routines by `bitpack_layouts_ok` + `Lemmas/BitPackSound.lean`) + the delta-sum lemma + entry-width adequacy. -/
+theorem theta_v4_roundtrip (c : Consts) (hc : c.ok = true) (s : Image) (h4 : WFv4 s) (exp : Nat) (hseed : s.seedHash = exp) (tail : Bytes) :
+    decode c exp (encodeV4 c s ++ tail) = some (s, tail) :=
+  decodeV4_encode (COk.of_ok hc) s h4 exp hseed tail
+
+example : WFv4 ⟨false, true, 37836, maxTheta, [405753591161026837, 2206043092153046979, 6730918654704304314]⟩ := by decide
+example : entryBits [405753591161026837, 2206043092153046979, 6730918654704304314] = 62 := by decide
+
+theorem size_eq_v4 (c : Consts) (s : Image) : (encodeV4 c s).length = serializedSizeV4 s := length_encodeV4 c s
+
+/-- the delta-sum lemma. -/
+theorem delta_sum (es : List Nat) (hasc : ascFrom 0 es) (hlt : ∀ e ∈ es, e < 2 ^ 64) : undelta 0 (deltas 0 es) = es :=
+  undelta_deltas 0 es hasc hlt
+
+/-- entry-bits adequacy: every delta fits into `compute_entry_bits` bits, and that width is in 1..63. -/
+theorem entry_bits_adequate (es : List Nat) (hne : es ≠ []) (hasc : ascFrom 0 es) (h63 : ∀ e ∈ es, e < 2 ^ 63) :
+    (∀ d ∈ deltas 0 es, d < 2 ^ entryBits es) ∧ 1 ≤ entryBits es ∧ entryBits es ≤ 63 :=
+  ⟨deltas_lt_entryBits es, entryBits_pos es hne hasc, entryBits_le_63 es h63⟩
+
+/-- `serialize_compressed`: compressed when suitable, uncompressed otherwise; either way the reader inverts it. -/
+theorem compressed_roundtrip (c : Consts) (hc : c.ok = true) (s : Image) (hwf : WF s) (h4 : suitable s = true → WFv4 s) (exp : Nat)
+    (hseed : s.isEmpty = true ∨ s.seedHash = exp) (tail : Bytes) :
+    decode c exp (encodeCompressed c s ++ tail) = some (s, tail) := by
+  unfold encodeCompressed
+  by_cases hs : suitable s = true
+  · have hne := (suitable_facts s hwf hs).2.1
+    have : s.seedHash = exp := by
+      rcases hseed with h | h
+      · rw [hne] at h; exact absurd h (by simp)
+      · exact h
+    simp only [hs, ↓reduceIte]
+    exact theta_v4_roundtrip c hc s (h4 hs) exp this tail
+  · simp only [hs, Bool.false_eq_true, ↓reduceIte]
+    exact decode_encode c hc s hwf exp hseed tail
+
+/-- wrapped read-only access: `wrap` + its iterator are the same parser as `deserialize` (one specification reader
+for both; the harness compares the real wrapped iterator with the real deserializer on every image). -/
+theorem wrapped_iter_eq_deserialize (c : Consts) (exp : Nat) (b : Bytes) : wrapDecode c exp b = decode c exp b := rfl
+
 end DS.Wire.Theta
